@@ -579,3 +579,35 @@ def restore_index_loops(tree, recorded):
             ast.fix_missing_locations(node) if hasattr(node, "lineno") else None
             n += 1
     return n
+
+
+# ---------------------------------------------------------------------------------------------------------------------
+# f'...{a}...'  is  '...{}...'.format(a)
+# ---------------------------------------------------------------------------------------------------------------------
+class _FStrings(ast.NodeTransformer):
+    def __init__(self):
+        self.n = 0
+
+    def visit_JoinedStr(self, node):
+        self.generic_visit(node)
+        tmpl, args = "", []
+        for v in node.values:
+            if isinstance(v, ast.Constant) and isinstance(v.value, str):
+                tmpl += v.value.replace("{", "{{").replace("}", "}}")
+            elif isinstance(v, ast.FormattedValue) and v.format_spec is None and v.conversion in (-1, 114, 115):
+                tmpl += "{}"
+                e = v.value
+                if v.conversion in (114, 115):
+                    e = ast.Call(func=ast.Name(id="repr" if v.conversion == 114 else "str", ctx=ast.Load()), args=[e], keywords=[])
+                args.append(e)
+            else:
+                return node
+        self.n += 1
+        new = ast.Call(func=ast.Attribute(value=ast.Constant(value=tmpl), attr="format", ctx=ast.Load()), args=args, keywords=[])
+        return ast.fix_missing_locations(ast.copy_location(new, node))
+
+
+def fstrings_to_format(tree):
+    t = _FStrings()
+    t.visit(tree)
+    return t.n
